@@ -96,6 +96,8 @@ def main():
         for i, run in enumerate(obs['runs']):
             if run['input_before'] != run['input_after']:
                 probs.append("run %d: the caller's input_kwargs changed: %s -> %s" % (i, json.dumps(run['input_before']), json.dumps(run['input_after'])))
+            if run.get('reused_objects'):
+                probs.append('run %d: node objects were used for more than one invocation (state kept on a node object leaks between invocations / runs): nodes %s' % (i, run['reused_objects']))
             spec_i = json.loads(json.dumps(spec))
             spec_i['input_kwargs'] = inputs[i]
             ref = O.reference(model, spec_i)
